@@ -13,8 +13,9 @@ REALS = ['0.0', '1.5', '-2.25', '1.0', '0.1', '100.0', '3.0', '-0.0']
 
 class Gen:
     def __init__(self, rng, reals=False, io=True, meta=True, defs=True, bad=0.03, cursor=False, maxdepth=3,
-                 words_extra=(), noprint=False):
+                 words_extra=(), noprint=False, plain=False):
         self.r = rng
+        self.plain = plain      # only the control-flow grammar of C01: no builders, foreach, tags, let, meta
         self.reals = reals
         self.io = io and not noprint
         self.meta = meta
@@ -54,6 +55,8 @@ class Gen:
         """source text that pushes exactly one value"""
         r = self.r
         ty = ty or r.choice(['int'] * 5 + ['flag', 'str', 'vec', 'map', 'nil', 'bits'] + (['real'] if self.reals else []))
+        if self.plain and ty in ('vec', 'map'):
+            ty = r.choice(['int', 'str', 'bits', 'flag'])
         if ty == 'int':
             k = r.random()
             if k < 0.55 or d >= self.maxdepth:
@@ -69,7 +72,7 @@ class Gen:
             if k < 0.9:
                 return '%s %s %s' % (self.val('int', d + 1), r.choice(SMALL + [7, 63, 127]), r.choice(['bsl', 'bsr']))
             if k < 0.94:
-                return '%s length' % self.val(r.choice(['vec', 'str', 'bits']), d + 1)
+                return '%s length' % self.val(r.choice(['vec', 'str', 'bits'] if not self.plain else ['str', 'bits']), d + 1)
             if k < 0.97 and self.vars:
                 return r.choice(self.vars)
             if self.loop_depth > 0:
@@ -91,7 +94,7 @@ class Gen:
                 return '%s %s equal?' % (self.val(None, d + 1), self.val(None, d + 1))
             return '%s %s' % (self.val(None, d + 1), r.choice(['nil?', 'int?', 'str?', 'vec?', 'bool?', 'bitstr?', 'real?']))
         if ty == 'str':
-            if d < self.maxdepth and r.random() < 0.2:
+            if d < self.maxdepth and r.random() < 0.2 and not self.plain:
                 return '%s %s' % (self.val('vec', d + 1), r.choice(['concat', '" " join', '"," join']))
             if d < self.maxdepth and r.random() < 0.1:
                 return '%s %s %s slice' % (self.val('str', d + 1), r.choice(['0', '1', '-1', '-2']), r.choice(['2', '-1', '100', '1']))
@@ -132,7 +135,7 @@ class Gen:
                 return '%s %s bitstr-append' % (self.val('bits', d + 1), self.val('bits', d + 1))
             if d < self.maxdepth and r.random() < 0.15:
                 return '%s %s' % (self.val('int', d + 1), r.choice(['u8!', 'i16!', 'u32be!', '12 int!', '3 uint!', 'u64le!']))
-            if d < self.maxdepth and r.random() < 0.1:
+            if d < self.maxdepth and r.random() < 0.1 and not self.plain:
                 return '[ %s] >bitstr' % ''.join(str(r.randint(0, 255)) + ' ' for _ in range(r.randint(0, 3)))
             return r.choice(BITS)
         if ty == 'real':
@@ -147,6 +150,10 @@ class Gen:
         r = self.r
         k = r.random()
         if r.random() < self.bad:
+            if self.plain:
+                return (r.choice(['foo', 'drop drop drop', '"s" 1 +', 'then', 'loop', '1 0 /', 'nil 1 +', ';', 'repeat', 'break', 'endcase',
+                                  '0x', '"x" neg', 'I', 'K', 'J', 'rot', 'over', 'swap', 'else', 'var', '1 ! nosuch', 'true assert false assert',
+                                  '1 2 assert-eq', '"boom" error', '|ff| 3 seek', 'endof', 'of', 'until', 'while', 'local q']), 0)
             return (r.choice(['foo', 'drop drop drop', '"s" 1 +', 'then', 'loop', ']', '1 0 /', 'nil 1 +', '1 "a" nth', ';', 'repeat', 'break',
                               'endcase', '}', '#)', '0x', '[ 1 ] 5 nth', '2 collect', '"x" neg', 'I', 'K', 'rot', 'over', 'swap', 'else',
                               'var', '1 ! nosuch', 'true assert false assert', '1 2 assert-eq', '"boom" error', '|ff| 3 seek']), 0)
@@ -209,6 +216,8 @@ class Gen:
             return (s, 0)
         if k < 0.89 and self.vars:
             return ('%s ! %s' % (self.val('int', d), r.choice(self.vars)), 0)
+        if self.plain:
+            return (self.val(None, d), 1)
         if k < 0.92:
             self.loop_depth += 1
             b, _ = self.block_with_effect(d + 1, 0)
@@ -302,7 +311,7 @@ class Gen:
         self.locals, self.loop_depth, self.in_begin = saved_locals, saved_loop, saved_begin
         if r.random() < 0.1:
             # redefinition: earlier callers keep the old meaning
-            b2, _ = Gen(self.r, bad=0, meta=False, defs=False, io=self.io, maxdepth=1).block_with_effect(1, nout)
+            b2, _ = Gen(self.r, bad=0, meta=False, defs=False, io=self.io, maxdepth=1, plain=self.plain).block_with_effect(1, nout)
             return (': %s %s ; : %s %s%s ;' % (name, body, name, 'drop ' * nin, b2), 0)
         return (': %s %s ;' % (name, body), 0)
 
